@@ -755,6 +755,13 @@ class CallMixin:
         if force_inline or (c is not None and c.inline) or q in self.registry.inline or self.auto_inline(finfo):
             self.inlined.add(q)
             return self.inline_call(finfo, self_val, args, kwargs, st, line)
+        # a package function without a contract that is not on any inline list (typically a helper the code did not have when the
+        # contracts were written): executing its real body at the call site is exact, so it is inlined (recorded in the evidence);
+        # recursion and deep chains stay out of reach
+        if len(st.stack) < 12 and not any(e.get('$func') is finfo for e in st.stack + [st.env]):
+            self.inlined.add(q)
+            self.auto_inlined_unknown.add(q)
+            return self.inline_call(finfo, self_val, args, kwargs, st, line)
         raise EngineError(f'call to {q} at line {line}: no contract and not inlinable')
 
     cur_root_target_inline = None
